@@ -78,6 +78,10 @@ def run_tsan(args):
         site = "?"
         for line in b.splitlines():
             line = line.strip()
+            if line.startswith("#0") and "/harness/" in line and site == "?":
+                # the innermost frame is the verification harness itself: name it, so that a race of the harness is not taken for BLOC's
+                site = "harness/" + line.split("/harness/")[1].split(":")[0]
+                break
             if line.startswith("#") and ("/blocc/" in line or "/modules/" in line):
                 loc = [w for w in line.split(" ") if "/blocc/" in w or "/modules/" in w]
                 if loc:
